@@ -219,6 +219,11 @@ func deliverRun(em *emitter, rng *rand.Rand, cfg world.GenCfg, cn string, run st
 				ev.kind, ev.errs = "errors", []string{fmt.Sprintf("upstream failed %s #%d", s.key, k)}
 			case r == 1:
 				ev.kind, ev.errs = "errmsg", []string{fmt.Sprintf("upstream error message %s #%d", s.key, k)}
+			case r == 2:
+				// an event that carries data NEXT TO errors (a field of the owning service failed): whatever the gateway
+				// makes of the data, the service's errors must reach the client
+				ev.kind, ev.errs = "partial", []string{fmt.Sprintf("upstream failed in part %s #%d", s.key, k)}
+				ev.val = world.GenEventVal(rng, w, cfg, s.field)
 			default:
 				ev.val = world.GenEventVal(rng, w, cfg, s.field)
 			}
@@ -264,6 +269,12 @@ func deliverRun(em *emitter, rng *rand.Rand, cfg world.GenCfg, cn string, run st
 			em.emit(line)
 			em.w.Flush()
 			s.up.SendData(map[string]interface{}{"data": nil, "errors": []map[string]interface{}{{"message": ev.errs[0]}}})
+		case "partial":
+			p := e.payloadFor(s.up, s.field, ev.val)
+			line["errs"] = ev.errs
+			em.emit(line)
+			em.w.Flush()
+			s.up.SendData(map[string]interface{}{"data": p["data"], "errors": []map[string]interface{}{{"message": ev.errs[0]}}})
 		case "errmsg":
 			line["errs"] = ev.errs
 			em.emit(line)
